@@ -22,6 +22,7 @@ mod runner;
 mod scenario;
 mod send;
 mod sim;
+mod simclock;
 mod tape;
 
 use json::J;
